@@ -68,14 +68,13 @@ def tagOk (sp ob : Option TagF) : Bool :=
   | _, _ => false
 
 /-- C03 verdict. A mismatch that the (defective) model reproduces is tagged with its finding class. -/
-def checkC03 (top : String) (default : TagDefault) (spec model obs : List ItemF) : List (String × String) :=
+def checkC03 (_top : String) (default : TagDefault) (spec model obs : List ItemF) : List (String × String) :=
   spec.flatMap fun e =>
     match obs.find? (fun o => o.name == e.name), model.find? (fun m => m.name == e.name) with
     | some o, some m =>
       let cls (sp ob mo : Option TagF) : String :=
         if ob != mo then ""
         else if sp.isSome && ob.isNone then "C03_element_tag_dropped"
-        else if e.name != top then "C03_nested_tag_default_ignored"
         else if default == .none then "C03_no_tags_clause_is_implicit"
         else ""
       -- explicit tags on CHOICE / open types are not observable: such spec tags are `relaxed`
